@@ -688,24 +688,41 @@ func (c *Context) Cbrt(d, x *Decimal) (Condition, error) {
 		}
 	}
 
-	z0.Set(x)
-	res := c.round(d, &z)
-	res, err := c.goError(res)
+	// Round z to the nearest value of c.Precision digits and cube that exactly
+	// (ax is |x|; d may alias x). If the cube is |x| the root is exact and is
+	// returned as such in every rounding mode. Otherwise the comparison tells on
+	// which side of that value the root lies; two sticky digits on that side then
+	// let the final rounding apply c.Rounding, and the sign, correctly.
+	nearest := c.WithPrecision(c.Precision)
+	nearest.Rounding = RoundHalfEven
+	res := nearest.round(d, &z)
 	d.Negative = neg
-
-	// Set z = d^3 to check for exactness.
-	ed.Mul(&z, d, d)
-	ed.Mul(&z, &z, d)
-
-	if err := ed.Err(); err != nil {
+	if d.Form != Finite {
+		return c.goError(res)
+	}
+	exact := MakeErrDecimal(BaseContext.WithPrecision(0))
+	var cube Decimal
+	exact.Mul(&cube, d, d)
+	exact.Mul(&cube, &cube, d)
+	if err := exact.Err(); err != nil {
 		return 0, err
 	}
-
-	// Result is exact
-	if z0.Cmp(&z) == 0 {
+	cube.Negative = false
+	cmp := cube.Cmp(&ax)
+	if cmp == 0 {
+		// Result is exact
 		return 0, nil
 	}
-	return res, err
+	z.Set(d)
+	z.Coeff.Mul(&z.Coeff, tableExp10(2, nil))
+	if cmp > 0 {
+		z.Coeff.Sub(&z.Coeff, bigOne)
+	} else {
+		z.Coeff.Add(&z.Coeff, bigOne)
+	}
+	z.Exponent -= 2
+	res = c.round(d, &z)
+	return c.goError(res | Inexact | Rounded)
 }
 
 func (c *Context) logSpecials(d, x *Decimal) (bool, Condition, error) {
